@@ -171,6 +171,18 @@ func (d *forkDirector) next(s *sim, rng *simcore.RNG) simcore.Op {
 				}
 			}
 		}
+		// the prevotes of the fast nodes for the slow ones leave now but stay in flight: they
+		// arrive in the next round (a stale polka)
+		if s.cfg.Bool("inflight") {
+			for _, it := range items {
+				if it.h == d.h && it.r == d.r && it.typ == 1 && it.kind == "vote" && d.slow[it.to] && d.fast[it.from] && !d.sent["hold"+it.key()] {
+					d.sent["hold"+it.key()] = true
+					op := it.op()
+					op["a"] = "delay"
+					return op
+				}
+			}
+		}
 		done := true
 		for _, i := range keys(d.slow) {
 			rs := rss[i]
@@ -295,6 +307,9 @@ func (d *forkDirector) next(s *sim, rng *simcore.RNG) simcore.Op {
 			return d.giveUp(s)
 		}
 		r1 := d.r + 1
+		if len(s.inflight) > 0 && d.free > 6 && rng.Bool(0.5) {
+			return simcore.Op{"a": "arrive", "id": s.inflight[0].id}
+		}
 		if len(s.byz) > 0 {
 			if !d.sent["prop1"] {
 				addr, h := proposerAt(s.nodes[(d.d+1)%len(s.nodes)], r1)
